@@ -111,3 +111,121 @@ pub fn desugar(p: &Prog) -> Prog {
 }
 
 pub fn uses_expr_vars(e: &Expr) -> Vec<Var> { let mut v = vec![]; expr_vars(e, &mut v); v }
+
+// ------------------------------------------------------------------------------------------------ macros (C08)
+/// substitution of macro parameters and renaming of macro-bound identifiers for one invocation
+struct Subst { params: Vec<MacArg>, local_base: Var, locals: std::collections::HashMap<Var, Var>, next: Var }
+impl Subst {
+    fn var(&mut self, v: Var) -> Result<Var, Expr> {
+        if v >= PARAM_BASE {
+            match &self.params[(v - PARAM_BASE) as usize] { MacArg::Ident(x) => Ok(*x), MacArg::Expr(Expr::Var(x)) => Ok(*x), MacArg::Expr(e) => Err(e.clone()) }
+        } else {
+            // identifiers introduced by the macro body are fresh for each invocation
+            let n = &mut self.next;
+            Ok(*self.locals.entry(v).or_insert_with(|| { let g = *n; *n += 1; g }))
+        }
+    }
+    fn expr(&mut self, e: &Expr) -> Expr {
+        match e {
+            Expr::Var(v) => match self.var(*v) { Ok(x) => Expr::Var(x), Err(e) => e },
+            Expr::Const(c) => Expr::Const(*c),
+            Expr::Succ(a) => Expr::Succ(Box::new(self.expr(a))),
+            Expr::Min(a, b) => Expr::Min(Box::new(self.expr(a)), Box::new(self.expr(b))),
+        }
+    }
+    fn arg(&mut self, a: &Arg) -> Arg {
+        match a {
+            Arg::Var(v) => match self.var(*v) { Ok(x) => Arg::Var(x), Err(e) => Arg::Expr(e) },
+            Arg::Wild => Arg::Wild,
+            Arg::Expr(e) => Arg::Expr(self.expr(e)),
+            Arg::PatBind(v) => Arg::PatBind(self.var(*v).ok().expect("pattern binder must be an identifier")),
+            Arg::PatLat(v) => Arg::PatLat(self.var(*v).ok().expect("pattern binder must be an identifier")),
+            Arg::PatConst(c) => Arg::PatConst(*c),
+        }
+    }
+    fn cond(&mut self, c: &Cond) -> Cond {
+        let id = |s: &mut Subst, v: Var| s.var(v).ok().expect("identifier expected");
+        match c {
+            Cond::Ne(a, b) => Cond::Ne(self.expr(a), self.expr(b)),
+            Cond::Lt(a, b) => Cond::Lt(self.expr(a), self.expr(b)),
+            Cond::Eq(a, b) => Cond::Eq(self.expr(a), self.expr(b)),
+            Cond::Let(v, e) => { let e2 = self.expr(e); Cond::Let(id(self, *v), e2) }
+            Cond::IfLetHalf(v, e) => { let e2 = self.expr(e); Cond::IfLetHalf(id(self, *v), e2) }
+            Cond::LatAbove(l, e) => { let e2 = self.expr(e); Cond::LatAbove(id(self, *l), e2) }
+            Cond::IfLetConst(v, c) => Cond::IfLetConst(id(self, *v), *c),
+            Cond::IfLetBind(a, b) => Cond::IfLetBind(id(self, *a), id(self, *b)),
+        }
+    }
+    fn mac_arg(&mut self, a: &MacArg) -> MacArg {
+        match a { MacArg::Ident(v) => match self.var(*v) { Ok(x) => MacArg::Ident(x), Err(e) => MacArg::Expr(e) }, MacArg::Expr(e) => MacArg::Expr(self.expr(e)) }
+    }
+    fn items(&mut self, items: &[BodyItem], p: &Prog, depth: usize) -> Vec<BodyItem> {
+        let mut out = vec![];
+        for b in items {
+            match b {
+                BodyItem::Atom(a) => { let args = a.args.iter().map(|x| self.arg(x)).collect(); let conds = a.conds.iter().map(|c| self.cond(c)).collect(); out.push(BodyItem::Atom(Atom { rel: a.rel, args, conds })); }
+                BodyItem::Cond(c) => out.push(BodyItem::Cond(self.cond(c))),
+                BodyItem::Gen(Gen::Range(v)) => out.push(BodyItem::Gen(Gen::Range(self.var(*v).ok().unwrap()))),
+                BodyItem::Gen(Gen::Two(v, a, b)) => { let (a2, b2) = (self.expr(a), self.expr(b)); out.push(BodyItem::Gen(Gen::Two(self.var(*v).ok().unwrap(), a2, b2))); }
+                BodyItem::Agg { res, f, bound, rel, args } => { let args2 = args.iter().map(|x| self.arg(x)).collect(); let b2 = bound.map(|b| self.var(b).ok().unwrap()); out.push(BodyItem::Agg { res: self.var(*res).ok().unwrap(), f: f.clone(), bound: b2, rel: *rel, args: args2 }); }
+                BodyItem::Neg { rel, args } => out.push(BodyItem::Neg { rel: *rel, args: args.iter().map(|x| self.arg(x)).collect() }),
+                BodyItem::Disj(alts) => out.push(BodyItem::Disj(alts.iter().map(|a| self.items(a, p, depth)).collect())),
+                BodyItem::Call { mac, args } => {
+                    // nested invocation: arguments are substituted first, then the callee is expanded with its own fresh locals
+                    let args2: Vec<MacArg> = args.iter().map(|a| self.mac_arg(a)).collect();
+                    let mut inner = Subst { params: args2, local_base: self.local_base, locals: Default::default(), next: self.next };
+                    out.extend(inner.items(&p.macros[*mac].body, p, depth + 1));
+                    self.next = inner.next;
+                }
+            }
+        }
+        assert!(depth < 50, "macro expansion too deep");
+        out
+    }
+}
+
+/// hand expansion of all macro invocations: the body at the call site, parameters substituted, identifiers
+/// introduced by the macro body fresh for each invocation
+pub fn expand_macros(p: &Prog) -> Prog {
+    let mut q = p.clone();
+    q.macros = vec![];
+    q.rules = vec![];
+    for r in &p.rules {
+        let mut m: Var = 0;
+        max_var(&r.body, &mut m);
+        let start = m.max(149) + 1;
+        // call-site identifiers are passed through unchanged: a substitution with no parameters and no renaming
+        fn go(items: &[BodyItem], p: &Prog, next: &mut Var) -> Vec<BodyItem> {
+            let mut out = vec![];
+            for b in items {
+                match b {
+                    BodyItem::Call { mac, args } => {
+                        let mut s = Subst { params: args.clone(), local_base: 0, locals: Default::default(), next: *next };
+                        out.extend(s.items(&p.macros[*mac].body, p, 1));
+                        *next = s.next;
+                    }
+                    BodyItem::Disj(alts) => out.push(BodyItem::Disj(alts.iter().map(|a| go(a, p, next)).collect())),
+                    other => out.push(other.clone()),
+                }
+            }
+            out
+        }
+        let mut next = start;
+        let body = go(&r.body, p, &mut next);
+        let mut heads = vec![];
+        for h in &r.heads {
+            match h {
+                HeadItem::H(h) => heads.push(HeadItem::H(h.clone())),
+                HeadItem::Call { mac, args } => {
+                    let mut s = Subst { params: args.clone(), local_base: 0, locals: Default::default(), next };
+                    for mh in &p.macros[*mac].heads {
+                        let hargs = mh.args.iter().map(|a| match a { HArg::E(e) => HArg::E(s.expr(e)), other => other.clone() }).collect();
+                        heads.push(HeadItem::H(Head { rel: mh.rel, args: hargs }));
+                    }
+                }
+            }
+        }
+        q.rules.push(Rule { heads, body });
+    }
+    q
+}
